@@ -427,6 +427,19 @@ def check(run):
         run.check(q.any_precedes(r1, mine, c), 'R4', 'counted-before-dispatch', '%s: %s' % (C + '::on_request1', (q.callee_name(c) or '').split('::')[-1]), r1.loc(c),
                   'a request is dispatched on a path that did not count it', 'an increment dominates the dispatch')
     run.notes.append('sinks analysed: %d' % nsink)
+    run.clause('a request that names its address by host name is carried out like one that names it by IP address: the name path dispatches on the command to the same handlers as the address path (sibling agreement)')
+    r1_ = fx.fn1(C + '::on_request1')
+    rdl_ = fx.fn1(C + '::on_request_domain_lookup')
+    run.touch(r1_)
+    run.touch(rdl_)
+    CMDS = {C + '::open_forward_connection', C + '::bind_connection', C + '::udp_associate'}
+    by_addr = {q.callee_name(c) for c in r1_.calls()} & CMDS
+    by_name = {q.callee_name(c) for c in rdl_.calls()} & CMDS
+    if len(by_addr) < 3:
+        run.broke('on_request1 no longer dispatches to the three command handlers (%s)' % sorted(x.split('::')[-1] for x in by_addr))
+    run.check(by_name == by_addr, 'R3', 'name-path-dispatches-like-address-path', rdl_.norm, rdl_.loc(),
+              'after resolving the host name of a request the proxy calls only %s, while the same request with an IP address dispatches to %s: a BIND or UDP ASSOCIATE that names its address by host name is carried out as a TCP CONNECT' % (
+                  sorted(x.split('::')[-1] for x in by_name), sorted(x.split('::')[-1] for x in by_addr)), 'dispatches to the same three handlers')
     run.clause('the UDP relay keeps relaying: every path of on_read_udp that handled (or dropped) a datagram re-arms async_receive_from with on_read_udp; only the receive-error path may return without')
     oru = fx.fn1(C + '::on_read_udp')
     run.touch(oru)
